@@ -208,9 +208,12 @@ func (s *snapshotSink) done(err error) (snapshotMeta, error) {
 		return s.meta, err
 	}
 	file = metaFile(s.snaps.dir, s.meta.index)
+	verifPointSnaps(s.snaps, "snap.beforePublish")
+	defer verifPointSnaps(s.snaps, "snap.published")
 	if err = os.Rename(temp.Name(), file); err != nil {
 		return s.meta, err
 	}
+	verifPointSnaps(s.snaps, "snap.renamed")
 	temp = nil
 	s.snaps.mu.Lock()
 	s.snaps.index, s.snaps.term = s.meta.index, s.meta.term
